@@ -145,10 +145,6 @@ impl F {
             F::OptStr => Ty::Opt(Box::new(Ty::Str)),
         }
     }
-    /// has only one value: the two sentinel sets cannot differ
-    pub fn single_valued(self) -> bool {
-        matches!(self, F::Unit | F::Z)
-    }
     fn nest_part(k: usize, set: usize, which: usize) -> E {
         let k = k as i128;
         match (which, set) {
@@ -782,6 +778,7 @@ pub fn programs(d: &TypeDesc, first: usize) -> Vec<Prog> {
         ($kind:expr, $wac:expr, $ret:expr, $solo:expr, |$b:ident, $pre:ident| $build:block) => {{
             let idx = first + out.len();
             let $pre = format!("q{idx}_");
+            #[allow(unused_mut)]
             let mut $b = B { d, c: 0 };
             let (helpers, stmts, tail): (Vec<Func>, Vec<S>, E) = $build;
             let ret_ty = match $ret {
